@@ -32,10 +32,14 @@ def describe(ints, verdict, case_json):
         d["Ticks"] = dict(status=nxt(), major=fl(), minor=fl())
         nl = nxt()
         d["levels"] = [dict(level=nxt(), CountTicks=nxt(), status=nxt(), TicksAtLevel=fl()) for _ in range(nl)]
+        d["NiceOptions"] = dict(Max=nxt(), MinLevel=nxt(), MaxLevel=nxt())
         d["Nice"] = dict(status=nxt(), Min=_f(nxt()), Max=_f(nxt()), MapOfNewMin=_f(nxt()), MapOfNewMax=_f(nxt()))
         d["NiceTwice"] = dict(status=nxt(), Min=_f(nxt()), Max=_f(nxt()))
         d["TicksAfterNice"] = dict(status=nxt(), major=fl())
-        d["failing_check"] = {10: "Ticks(o) major/minor", 20: "CountTicks/TicksAtLevel at a level", 30: "Nice(o) new Min/Max",
+        d["failing_check"] = {10: "Ticks(o) major/minor", 20: "CountTicks/TicksAtLevel at a level", 21: "observed CountTicks not non-increasing in the level", 30: "Nice(o') new Min/Max",
+                              35: "Nice shrank the domain (observed values)", 36: "Ticks(o') after Nice differs from the model's ticks on the observed niced domain",
+                              37: "second Nice(o') differs from the model's Nice on the observed niced domain", 42: "niced bounds not finite / not a Log domain",
+                              45: "Nice added more than one major tick spacing at an end", 3: "panic status of the second Nice", 4: "panic status of Ticks after Nice",
                               40: "Nice is idempotent", 41: "first/last major tick after Nice equal the new bounds", 43: "Map(new Min)=0 / Map(new Max)=1 after Nice",
                               1: "panic status of Ticks", 2: "panic status of Nice"}.get(verdict[2], str(verdict[2]))
         return d
